@@ -13,7 +13,7 @@ for d in sorted(glob.glob('/verif/seeded/C*')):
     rows.append((name, m.get('property'), summ, own, ' '.join(others) or '-'))
 out = []
 out.append('## 6. Seeded behaviour-breaking changes and which checks report them\n')
-out.append('''%d changes (three rounds: `<id>-<k>`, `<id>-r2<k>`, `<id>-r3<k>`), each written by an independent sub-agent that was given only the text
+out.append('''%d changes (rounds `<id>-<k>`, `<id>-r2<k>`, ... `<id>-r6<k>`), each written by an independent sub-agent that was given only the text
 of one property and a scratch worktree (nothing from /verif), each needing something
 specific to manifest (an input class, an aliasing pattern, a build configuration, a
 call order), each building and passing the whole pinned suite, each with a demonstration
@@ -51,6 +51,13 @@ served as the regression test):
 | C19-r21 | C19 | instruction *selection* was compared, not alignment requirements | `C19-4/alignment`: SSE instructions with memory operands that fault on unaligned addresses need a proven 16-byte alignment |
 | C03-r31 | C03 | `IsYOdd` recomputed Y/Z itself and used the raw Y of a computed identity (0:Y:0); the "coordinate read comes from `rescale`" rule is about reads of a Point's fields and did not see a fresh element | `C03-5/IsYOdd`: the parity test on symbolic coordinates must equal parity(Z = 0 ? 1 : Y/Z), however it is computed; C03 also runs the encoder rule `C06-4` (bytes as functions of X/Z, Y/Z) |
 | C19-r31 | C19 | a software-pipelined SSE2 lookup loads a 16th table entry past the end of the 15-entry table; results are unchanged when the read succeeds | `C19-5/in-bounds/*`: every load and store through a pointer parameter lies inside the pointed-to object (offsets from the assembly interpreter, sizes from the Go prototype) |
+| C02-r42 | C02 | the hand-written control-word normaliser `Uint64ToUint1` (fiat package, `voi.go`) was a *specification* for the upper layers but never compared with its code; `u & 1` is wrong for even non-zero control words | `limbproof.CheckUint64ToUint1` (both fiat packages): result = [u != 0] for every 64-bit u |
+| C05-r42 | C05 | package-level scratch in `addMixed`: sequentially exact, wrong under concurrent callers; only C20 looked for shared writes | C20 is the bottom layer of every property (sequential reasoning about one call is valid only without shared mutable state); its obligations are filtered by reachability like any lower layer |
+| C08-r41 | C08 | `newPrivateKeyFromScalar` keeps the caller's scalar: signatures stop verifying once the caller mutates it; C10 decides key construction but `Sign` does not call the constructor | the constructors of the *key objects* a property's routines take as operands are relevant to it (the property quantifies over every key the API can produce); C10 added below C08 |
+| C09-r41 | C09 | the sampler rejects in-range candidates with a zero top byte; the rule required the three tests on the accepting path but not that they are the only ones | `C09-3`: every condition on an accepting path that looks at candidate bytes is `E >= n` or `fn(E) = 0` of some block (first candidate in [1, n) wins) |
+| C19-r42 | C19 | the portable lookup calls the validating `ConditionalSelect` and panics on table entries (whose validity flag is never set); the equivalence rule ignored panicking paths | `C19-2/.../no-panic`: the portable twin has no reachable panic (the assembly has none) |
+| C02-r51, C05-r52, C08-r52, C12-r52, C18-r51 | C02, C05, C08, C12, C18 | each breaks a clause that the property *states* but that was decided only by another property's check (the shared helpers under C01; "every private scalar is mapped to d*G" under C10; "the encodings parse back" under C12; the Bitcoin entry point's own slicing under C07; scalar folds with the receiver in the list under C02) | the rule that decides the clause is also run by the check of every property that states it (`C02-8` helpers, `C10-3` in C05, `C12-1..4` in C08, `C07-4` incl. a new bounds obligation in C12, `C02-2c` in C18) |
+| C09-r51 | C09 | the sampler aborted on a candidate >= n instead of drawing the next one; the rule looked at accepting paths only | `C09-3`: an error return without a failed read is allowed only after the maximum number of attempts |
 | C19-r22 | C19 (after the relevance filter was added) | reachability was computed in the amd64 configuration only; the portable lookup is the only caller that passes non-0/1 values to `Uint64Equal` | relevance is the union over every loaded build configuration |
 ''')
 s = open('/verif/DESIGN.md').read()
